@@ -239,6 +239,8 @@ func histExec(c core.Case) core.Case {
 	for _, x := range objs {
 		if !x.dirty {
 			chk += reflectContract(x.m)
+		} else {
+			chk += usableAfterFailure(x.m)
 		}
 	}
 	out := core.Case{"obs": obs, "chk": chk}
@@ -392,4 +394,39 @@ func scribble(m protoreflect.Message) {
 		}
 		return true
 	})
+}
+
+// usableAfterFailure: what a message holds after a failed Unmarshal is unspecified, but it is a message: every
+// operation on it must still return (C06: Unmarshal never panics, whatever the message held before; C17: the lazily
+// decoding path must not differ observably from the eager one, which never panics here).  Reported like a contract
+// violation: "" when every probe returned.
+func usableAfterFailure(m protoreflect.Message) (why string) {
+	stage := "Clone"
+	defer func() {
+		if r := recover(); r != nil {
+			why = fmt.Sprintf("after a failed Unmarshal, %s panics: %.160s; ", stage, fmt.Sprint(r))
+		}
+	}()
+	c := proto.Clone(m.Interface())
+	stage = "Size"
+	proto.Size(c)
+	stage = "Marshal"
+	b, _ := proto.MarshalOptions{AllowPartial: true}.Marshal(c)
+	stage = "Range/Get"
+	c.ProtoReflect().Range(func(fd protoreflect.FieldDescriptor, v protoreflect.Value) bool { return true })
+	fds := c.ProtoReflect().Descriptor().Fields()
+	for i := 0; i < fds.Len(); i++ {
+		if fd := fds.Get(i); fd.Message() != nil && !fd.IsList() && !fd.IsMap() {
+			c.ProtoReflect().Get(fd).Message().IsValid()
+		}
+	}
+	stage = "Equal"
+	proto.Equal(c, m.Interface())
+	stage = "Unmarshal{Merge}"
+	proto.UnmarshalOptions{Merge: true, AllowPartial: true}.Unmarshal(b, m.Interface())
+	stage = "Marshal after Unmarshal{Merge}"
+	proto.MarshalOptions{AllowPartial: true}.Marshal(m.Interface())
+	stage = "Reset"
+	proto.Reset(m.Interface())
+	return ""
 }
